@@ -710,7 +710,10 @@ func runStrings(rng *vh.RNG) {
 
 	// ===== scaling: base58 is legitimately quadratic (big-integer accumulation); it must not be worse =====
 	r = rng.Fork("scale-b58")
-	scaleProbe("base58.Decode", cfg.Scale(3000, 6000), 5, func(n int) (func(), func() interface{}) {
+	// allocation: math/big grows its operands by a constant four words at a time, so Base58 decoding allocates
+	// ~n^2/40 bytes (dependency behaviour, observed ratio 3.9); the allocation rule of these families allows quadratic
+	// growth (limit 5) and still refuses cubic growth (8)
+	scaleProbeOpt("base58.Decode", cfg.Scale(3000, 6000), 5, b58AllocRatioMax, func(n int) (func(), func() interface{}) {
 		b := make([]byte, n)
 		for j := range b {
 			b[j] = b58Alphabet[1+r.Intn(57)]
@@ -720,7 +723,7 @@ func runStrings(rng *vh.RNG) {
 			return map[string]interface{}{"family": "random base58 string of the given length", "length": n, "head": s[:40]}
 		}
 	})
-	scaleProbe("base58.CheckDecode", cfg.Scale(3000, 6000), 5, func(n int) (func(), func() interface{}) {
+	scaleProbeOpt("base58.CheckDecode", cfg.Scale(3000, 6000), 5, b58AllocRatioMax, func(n int) (func(), func() interface{}) {
 		s := b58check(r.Bytes(n * 733 / 1000))
 		return func() { base58.CheckDecode(s) }, func() interface{} {
 			return map[string]interface{}{"family": "valid Base58Check string of about the given length", "length": len(s), "head": s[:40]}
